@@ -627,9 +627,55 @@ pub struct WorldResult {
 
 pub const STACK_BYTES: usize = 8 << 20;
 
+/// Variables the simulator controls. Baseline (environment 0): every one of them unset except LANG=C, TZ=UTC,
+/// HOME=/root, USER=root, TERM=dumb; working directory = the worker's empty `cwd`.
+const CONTROLLED_VARS: [&str; 24] = [
+    "LANG", "LC_ALL", "LC_CTYPE", "LC_MESSAGES", "TZ", "HOME", "USER", "LOGNAME", "TERM", "COLUMNS", "LINES", "NO_COLOR", "CLICOLOR_FORCE",
+    "TMPDIR", "PWD", "SOURCE_DATE_EPOCH", "CC6502_INCLUDE", "CC6502_OPTS", "CFLAGS", "CPATH", "C_INCLUDE_PATH", "INCLUDE", "RUST_LOG",
+    "RUST_LOG_STYLE",
+];
+const BASELINE_ENV: [(&str, &str); 5] = [("LANG", "C"), ("TZ", "UTC"), ("HOME", "/root"), ("USER", "root"), ("TERM", "dumb")];
+/// The non-baseline environments of `World::env` (1-based): (variables, use the second working directory).
+pub const ENVIRONMENTS: [(&[(&str, &str)], bool); 3] = [
+    (
+        &[
+            ("LANG", "fr_FR.UTF-8"), ("LC_ALL", "fr_FR.UTF-8"), ("TZ", "Asia/Tokyo"), ("HOME", "/nonexistent"), ("USER", "nobody"),
+            ("LOGNAME", "nobody"), ("TERM", "xterm-256color"), ("COLUMNS", "40"), ("LINES", "10"), ("NO_COLOR", "1"), ("TMPDIR", "/dev/shm"),
+        ],
+        true,
+    ),
+    (
+        &[
+            ("CC6502_INCLUDE", "/dev/shm"), ("CC6502_OPTS", "-O3 -DX=1"), ("CFLAGS", "-O3 -DX=1"), ("CPATH", "/dev/shm"),
+            ("C_INCLUDE_PATH", "/dev/shm"), ("INCLUDE", "/dev/shm"), ("RUST_LOG", "trace"), ("RUST_LOG_STYLE", "always"), ("CLICOLOR_FORCE", "1"),
+        ],
+        true,
+    ),
+    (&[("PWD", "/wrong"), ("SOURCE_DATE_EPOCH", "1"), ("LANG", "tr_TR.UTF-8"), ("LC_CTYPE", "tr_TR.UTF-8"), ("TZ", "America/St_Johns")], false),
+];
+
+/// Puts the process into environment `env` (no caller thread is running).
+fn apply_environment(env: u8, dir: &str) {
+    for v in CONTROLLED_VARS {
+        std::env::remove_var(v);
+    }
+    let (vars, alt): (&[(&str, &str)], bool) = match env {
+        0 => (&BASELINE_ENV, false),
+        n => {
+            let e = &ENVIRONMENTS[(n as usize - 1) % ENVIRONMENTS.len()];
+            (e.0, e.1)
+        }
+    };
+    for (k, v) in vars {
+        std::env::set_var(k, v);
+    }
+    let _ = std::env::set_current_dir(format!("{}/{}", dir, if alt { "cwd2" } else { "cwd" }));
+}
+
 /// Runs a world. Not re-entrant: one world at a time per process.
 pub fn run_world(world: &World, env: &Arc<WorkerEnv>, wall_per_job: Duration) -> WorldResult {
     let n = world.threads.len();
+    apply_environment(world.env, &env.dir);
     log::set_max_level(match world.log_level {
         4 => log::LevelFilter::Debug,
         5 => log::LevelFilter::Trace,
@@ -687,6 +733,9 @@ pub fn run_world(world: &World, env: &Arc<WorkerEnv>, wall_per_job: Duration) ->
         // the stuck thread cannot be stopped: the caller must end this process
     }
     log::set_max_level(log::LevelFilter::Info);
+    if world.env != 0 && wall_hang.is_none() {
+        apply_environment(0, &env.dir);
+    }
     let jobs = std::mem::take(&mut *results.lock().unwrap());
     WorldResult { jobs, sched: sched.report(), wall_hang }
 }
